@@ -198,7 +198,7 @@ fn tampers(t: &mut Tape, tx: &Transaction, spent: &[TxOut], ctx: &mut Ctx) -> Ve
     }
     // permutation: only where it is necessarily detectable (every domain element takes part in each
     // surjection proof, i.e. domain size <= 3, and the exchanged outputs differ in asset generator)
-    if spent.len() >= 2 && domain_size(tx) <= 3 && !conf.is_empty() {
+    if spent.len() >= 2 && domain_size(tx) <= 3 && tx.output.iter().any(|o| o.asset.is_confidential() && o.witness.surjection_proof.is_some()) {
         let mut s = spent.to_vec();
         if s[0].asset != s[1].asset {
             s.swap(0, 1);
@@ -249,6 +249,96 @@ fn tamper_generated(t: &mut Tape, ctx: &mut Ctx) -> R {
     let sig = format!("generated:{}", hex(&case.rng_seed[..8]));
     if ctx.wants_sample("generated-base") {
         ctx.sample("generated-base", || c04::describe(&case));
+    }
+    run_tampers(t, &tx, &case.spent, &sig, ctx)
+}
+
+/// Verifying bases with *partially* blinded outputs (confidential amount over an explicit asset,
+/// confidential asset with an explicit amount) next to fully blinded and explicit ones, over spent
+/// outputs of every form.  Built from the secp256k1-zkp primitives, not by `Transaction::blind`
+/// (which only produces fully blinded outputs); the one library function used is
+/// `ValueBlindingFactor::last`, and the base must verify before anything is tampered with.
+fn tamper_hybrid(t: &mut Tape, ctx: &mut Ctx) -> R {
+    let case: CtCase = ct::gen_ct_case(t, false);
+    let s = secp();
+    let p = pool();
+    let mut rng = ChaCha20Rng::from_seed(case.rng_seed);
+    let mut tx = case.tx.clone();
+    // form of each non-fee output: 0 explicit, 1 fully blinded, 2 amount only, 3 asset only
+    let n = tx.output.len();
+    let mut form: Vec<usize> = (0..n).map(|i| if tx.output[i].script_pubkey.is_empty() { 0 } else { t.below(4) }).collect();
+    if !form.iter().any(|f| *f == 1 || *f == 2) {
+        // some output has to absorb the blinding factors of the others and of the spent outputs
+        if let Some(k) = case.receivers.keys().next() {
+            form[*k] = 2;
+        }
+    }
+    let Some(last) = (0..n).rev().find(|i| form[*i] == 1 || form[*i] == 2) else {
+        ctx.exclude();
+        return Ok(());
+    };
+    let mut abfs = Vec::new();
+    let mut vbfs = Vec::new();
+    for i in 0..n {
+        abfs.push(if form[i] == 1 || form[i] == 3 { ct::abf_from(t, 100 + i as u32) } else { AssetBlindingFactor::zero() });
+        vbfs.push(if (form[i] == 1 || form[i] == 2) && i != last { ct::vbf_from(t, 200 + i as u32) } else { ValueBlindingFactor::zero() });
+    }
+    let plain: Vec<(AssetId, u64)> = tx.output.iter().map(|o| (o.asset.explicit().unwrap_or(AssetId::LIQUID_BTC), o.value.explicit().unwrap_or(0))).collect();
+    let ins: Vec<(u64, AssetBlindingFactor, ValueBlindingFactor)> = case.secrets.iter().map(|x| (x.value, x.asset_bf, x.value_bf)).collect();
+    let outs: Vec<(u64, AssetBlindingFactor, ValueBlindingFactor)> = (0..n).filter(|i| *i != last).map(|i| (plain[i].1, abfs[i], vbfs[i])).collect();
+    vbfs[last] = guard::guard("ValueBlindingFactor::last", 0, || ValueBlindingFactor::last(s, plain[last].1, abfs[last], &ins, &outs))?;
+    let domain: Vec<(Generator, elements::secp256k1_zkp::Tag, elements::secp256k1_zkp::Tweak)> = case
+        .secrets
+        .iter()
+        .map(|x| {
+            let tag = x.asset.into_tag();
+            let g = if x.asset_bf == AssetBlindingFactor::zero() { Generator::new_unblinded(s, tag) } else { Generator::new_blinded(s, tag, x.asset_bf.into_inner()) };
+            (g, tag, x.asset_bf.into_inner())
+        })
+        .collect();
+    for i in 0..n {
+        let (asset, value) = plain[i];
+        let tag = asset.into_tag();
+        let blinded_asset = form[i] == 1 || form[i] == 3;
+        let blinded_value = form[i] == 1 || form[i] == 2;
+        let g = if blinded_asset { Generator::new_blinded(s, tag, abfs[i].into_inner()) } else { Generator::new_unblinded(s, tag) };
+        let o = &mut tx.output[i];
+        if blinded_asset {
+            o.asset = Asset::Confidential(g);
+            let sp = guard::guard("SurjectionProof::new", 0, || SurjectionProof::new(s, &mut rng, tag, abfs[i].into_inner(), &domain))?;
+            match sp {
+                Ok(sp) => o.witness.surjection_proof = Some(Box::new(sp)),
+                Err(e) => return Err(Failure::new(format!("harness: surjection proof for output {} cannot be built: {}", i, e))),
+            }
+        }
+        if blinded_value {
+            let comm = PedersenCommitment::new(s, value, vbfs[i].into_inner(), g);
+            o.value = Value::Confidential(comm);
+            let sk = p.seckeys[t.below(p.seckeys.len())];
+            let msg = [i as u8; 64];
+            let rp = guard::guard("RangeProof::new", 0, || RangeProof::new(s, 1, comm, value, vbfs[i].into_inner(), &msg, o.script_pubkey.as_bytes(), sk, 0, 52, g))?;
+            match rp {
+                Ok(rp) => o.witness.rangeproof = Some(Box::new(rp)),
+                Err(e) => return Err(Failure::new(format!("harness: range proof for output {} cannot be built: {}", i, e))),
+            }
+        }
+        if blinded_asset || blinded_value {
+            o.nonce = Nonce::Confidential(p.pubkeys[t.below(p.pubkeys.len())]);
+        } else {
+            o.nonce = Nonce::Null;
+        }
+    }
+    for f in [1usize, 2, 3] {
+        if form.contains(&f) {
+            ctx.class(["", "hybrid-base:has-fully-blinded-output", "hybrid-base:has-amount-only-blinded-output", "hybrid-base:has-asset-only-blinded-output"][f]);
+        }
+    }
+    if case.has_partial_input {
+        ctx.class("hybrid-base:partially-blinded-spent-output");
+    }
+    let sig = format!("hybrid:{}:{}", hex(&case.rng_seed[..8]), form.iter().map(|f| f.to_string()).collect::<String>());
+    if ctx.wants_sample("hybrid-base") {
+        ctx.sample("hybrid-base", || json!({"case": c04::describe(&case), "output_forms(0 explicit,1 full,2 amount only,3 asset only)": form.clone()}));
     }
     run_tampers(t, &tx, &case.spent, &sig, ctx)
 }
@@ -411,7 +501,25 @@ fn explicit_balance(t: &mut Tape, ctx: &mut Ctx) -> R {
         }
         1 => {
             let asset = *totals.keys().next().unwrap_or(&p.assets[0]);
-            let spk = ct::std_script(t);
+            let spk = if t.chance(100) {
+                // scripts that can never succeed but are not *provably unspendable* in the consensus
+                // sense (CScript::IsUnspendable: OP_RETURN first, or oversize): a reserved / invalid
+                // first opcode, OP_RETURN not in first position, exactly the maximum size
+                match t.below(4) {
+                    0 => {
+                        let first = t.choose(&[0x50u8, 0x62, 0x65, 0x66, 0x89, 0x8a, 0xba, 0xbb, 0xc0, 0xd0, 0xe0, 0xfd, 0xfe, 0xff, 0x69, 0x6b]);
+                        let mut v = vec![first];
+                        let extra = t.below(6);
+                        v.extend(t.bytes(extra));
+                        Script::from(v)
+                    }
+                    1 => Script::from(vec![0x51, 0x6a]),
+                    2 => Script::from(vec![0x00, 0x6a, 0x01, 0x00]),
+                    _ => Script::from(vec![0x51; 10_000]),
+                }
+            } else {
+                ct::std_script(t)
+            };
             output.push(TxOut { asset: Asset::Explicit(asset), value: Value::Explicit(0), nonce: Nonce::Null, script_pubkey: spk, witness: TxOutWitness::empty() });
             zero_on_spendable = true;
         }
@@ -563,7 +671,9 @@ pub fn property() -> Property {
                script of a blinded output changed, issuance amounts changed, spent output value altered, spent outputs \
                permuted (only where necessarily detectable: domain <= 3), wrong count => UtxoInputLenMismatch); no-op \
                tampers skipped and counted; oracle: verification returns Err. vectors: the repository's verifying \
-               transactions with the same tampers. explicit_balance: all-explicit transactions (inputs + issuances vs \
+               transactions with the same tampers. tamper_hybrid: bases built from the zkp primitives with every \
+               output form (explicit, fully blinded, amount-only blinded over an explicit asset, asset-only blinded with \
+               an explicit amount) over spent outputs of every form, same tampers. explicit_balance: all-explicit transactions (inputs + issuances vs \
                outputs + fees per asset, balanced / off by delta / foreign asset / dropped output, zero-value outputs on \
                provably unspendable vs spendable scripts); oracle: verifies <=> harness per-asset balance holds and every \
                zero-value output is provably unspendable. exact_proofs: blind_value_proof / blind_asset_proof verify for the \
@@ -571,10 +681,11 @@ pub fn property() -> Property {
                the tamper changes >= 1 byte; distinct by (base, class, tampered encoding).",
         assumptions: &[
             "secp256k1-zkp is the trusted base; cryptographic negatives hold with overwhelming probability",
-            "zero-value outputs only on scripts whose (un)spendability is unambiguous: OP_RETURN-first or > 10000 bytes vs standard templates / empty",
+            "provably unspendable = CScript::IsUnspendable as the library documents it (OP_RETURN first, > 10000 bytes, or the empty fee script); a script that merely cannot succeed (reserved first opcode, OP_RETURN later) is not",
         ],
         subs: vec![
             Sub { name: "tamper_generated", kind: Kind::Tape { max_len: 3000, quick: 500, thorough: 15_000, f: tamper_generated } },
+            Sub { name: "tamper_hybrid", kind: Kind::Tape { max_len: 3000, quick: 500, thorough: 15_000, f: tamper_hybrid } },
             Sub { name: "vectors", kind: Kind::Index { count: |t| t.pick(8, 120), exhaustive: false, f: repo_vectors } },
             Sub { name: "explicit_balance", kind: Kind::Tape { max_len: 2500, quick: 20_000, thorough: 500_000, f: explicit_balance } },
             Sub { name: "exact_proofs", kind: Kind::Tape { max_len: 600, quick: 1_500, thorough: 40_000, f: exact_proofs } },
